@@ -21,8 +21,14 @@ ASSUMPTIONS = ['overriding part of an array-formula block (not possible in Excel
 B, C = M.B, M.C
 
 
+def skey(model):
+    """models cf / cf2 are model c loaded from real files (linked book first / home book first)"""
+    return 'c' if model in ('cf', 'cf2') else model
+
+
 def ops_for(model):
     """name -> (kind, lib inputs, reference overrides, outputs)"""
+    model = skey(model)
     i = lib_id
     if model == 'a':
         A1, A2, B1, C1, F1, D1 = (i(B, 'S', c) for c in ('A1', 'A2', 'B1', 'C1', 'F1', 'D1'))
@@ -122,7 +128,23 @@ def ops_for(model):
             'compile': ('compile', [RP + 'A1'], {}, [RP + 'E1', RP + 'E4'], [5]),
             'to_dict': ('to_dict',), 'write': ('write',), 'deepcopy': ('deepcopy',),
         }
+    if model == 'rc':
+        n = lambda v: "[[('n', %r)]]" % float(v)
+        return {
+            'calc': ('calc', {}, {'K4': n(8), 'D1': n(16)}, None),
+            'B1=5': ('calc', {RP + 'B1': 5}, {'A1': n(13), 'C1': n(26), 'B1': n(5), 'K4': n(8)}, None),
+            'A1=2': ('calc', {RP + 'A1': 2}, {'B1': n(3), 'C1': n(4), 'A1': n(2)}, None),
+            'K1=3': ('calc', {RP + 'K1': 3}, {'K4': n(24), 'D1': n(48)}, None),
+            'B1=5,K1=3': ('calc', {RP + 'B1': 5, RP + 'K1': 3}, {'A1': n(29), 'C1': n(58), 'K4': n(24)}, None),
+            'B1=5>C1': ('calc', {RP + 'B1': 5}, {'C1': n(26)}, [RP + 'C1']),
+            'to_dict': ('to_dict',), 'deepcopy': ('deepcopy',),
+        }
     raise ValueError(model)
+
+
+# model rc: a workbook with an unbreakable cycle (A1 = B1+K4, B1 = A1+1) next to a chain of formulas K1..K4; overriding a member of the
+# cycle opens it.  Expected values are written by hand (third element of each operation).
+RAW_RC = {}
 
 
 # model r: written as a raw dictionary (array constants holding empty text, a blank cell read through a range and alone): there is
@@ -133,6 +155,10 @@ RAW_R = {
     RP + 'B3:C4': '=IF(%sA1>0,{"","x";1,""},0)' % RP, RP + 'E3': '=COUNTA(%sB3:C4)+COUNTBLANK(%sB3:C4)*10' % (RP, RP), RP + 'E4': '=%sC3&"|"&%sB3&"|"&%sA1' % (RP, RP, RP),
     RP + 'B5': 4, RP + 'E5': '=SUM(%sB5:B8)&"/"&ISBLANK(%sB6)&"/"&%sB7' % (RP, RP, RP), RP + 'E6': '=IF(%sB6="",1,2)+%sA1' % (RP, RP),
 }
+
+
+RAW_RC.update({RP + 'K1': 1, RP + 'K2': '=%sK1*2' % RP, RP + 'K3': '=%sK2*2' % RP, RP + 'K4': '=%sK3*2' % RP, RP + 'A1': '=%sB1+%sK4' % (RP, RP), RP + 'B1': '=%sA1+1' % RP,
+               RP + 'C1': '=%sA1*2' % RP, RP + 'D1': '=%sK4*2' % RP})
 
 
 # Overriding PART of an array-formula block is not an Excel operation ("You cannot change part of an array"): what a reader of
@@ -153,6 +179,13 @@ def fresh(model):
     if model == 'r':
         import formulas
         return formulas.ExcelModel().from_dict(dict(RAW_R))
+    if model == 'rc':
+        import formulas
+        return formulas.ExcelModel().from_dict(dict(RAW_RC), assemble=False).finish(complete=False, circular=True)
+    if model in ('cf', 'cf2'):
+        spec = M.MODELS['c']()
+        with X.Scratch() as d:
+            return X.model_from_files(spec, d, load=[M.C, M.B] if model == 'cf' else [M.B, M.C])
     return X.model_from_dict(M.MODELS[model]())
 
 
@@ -183,10 +216,10 @@ def observe(model, name, res):
     from xl import wbspec as X
     from xl.evalcell import classify_array
     kind, val = res
-    if model == 'r' and kind == 'sol':
+    if model in ('r', 'rc') and kind == 'sol':
         import numpy as np
         return {k: str(classify_array(np.asarray(v.value, object))) for k, v in val.items() if isinstance(k, str) and k.startswith(RP) and hasattr(v, 'value')}
-    spec = M.MODELS[model]() if model != 'r' else None
+    spec = M.MODELS[skey(model)]() if model not in ('r', 'rc') else None
     if kind == 'sol':
         o = ops_for(model)[name]
         keys = list(spec['cells']) + [k for ak in spec['arrays'] for k in spill_keys(ak)] + [k for k in (o[2] if len(o) > 2 else {}) if k not in spec['cells'] and not k.startswith('NAME:')]
@@ -207,9 +240,9 @@ def spill_keys(ak):
 def reference(model, name):
     from ref import wbeval as W
     o = ops_for(model)[name]
-    if model == 'r':
+    if model in ('r', 'rc'):
         return None
-    spec = M.MODELS[model]()
+    spec = M.MODELS[skey(model)]()
     try:
         if o[0] in ('calc', 'compile'):
             ref, _ = W.solve(spec, o[2])
@@ -241,6 +274,11 @@ def run_case(case):
     if got != exp:
         diff = first_diff(got, exp)
         fails.append(Fail('history-dependent', got=diff[0], exp=diff[1], **desc))
+    if model == 'rc' and ops_for(model)[name][0] == 'calc':
+        for c, want in ops_for(model)[name][2].items():
+            if got.get(RP + c) != want:
+                fails.append(Fail('wrong-value', got='%s=%s' % (c, got.get(RP + c)), exp='%s=%s' % (c, want), cell=c, **desc))
+                break
     # (2) the reference evaluation with the overrides as constants
     ref = reference(model, name)
     o = ops_for(model)[name]
@@ -283,7 +321,7 @@ def run(ctx):
     cap = 400 if ctx.tier == 'quick' else 300    # frontier histories expanded per level and model (reported if hit)
     closed, capped = {}, {}
     states_total = 0
-    for model in list(M.MODELS) + ['r']:
+    for model in list(M.MODELS) + ['r', 'rc', 'cf', 'cf2']:
         names = list(ops_for(model))
         seen = set()
         frontier = [[]]
@@ -307,4 +345,4 @@ def run(ctx):
         states_total += len(seen)
     return {'states': states_total, 'horizon': horizon,
             'frontier_emptied': {k: v[0] for k, v in closed.items()}, 'depth_reached': {k: v[1] for k, v in closed.items()},
-            'frontier_cap_hit': capped, 'alphabet': {m: list(ops_for(m)) for m in list(M.MODELS) + ['r']}}
+            'frontier_cap_hit': capped, 'alphabet': {m: list(ops_for(m)) for m in list(M.MODELS) + ['r', 'rc', 'cf', 'cf2']}}
